@@ -748,7 +748,13 @@ func (s *c03State) step() bool {
 	case 39: // a by-value copy grows beyond the shared capacity (so it moves to storage of its own) and is then rebuilt
 		// as something else: the original is what it was
 		m.Attributes = m.Attributes[:len(m.Attributes):len(m.Attributes)]
-		n := cap(m.Raw) - len(m.Raw) + 1 + r.Intn(100)
+		// Add writes behind the message the header declares (20+Length), which may lie before len(Raw) when the message was
+		// decoded from a buffer with bytes behind it: "beyond the capacity" is counted from there, so that the very first
+		// thing the copy's Add does is move to a buffer of its own
+		n := cap(m.Raw) - (20 + int(m.Length)) + 1 + r.Intn(100)
+		if n < 1 {
+			return true
+		}
 		s.op(fmt.Sprintf("cp := *m; cp.Add(DATA,%dB beyond the capacity); cp.Build(other message)", n))
 		cp := *m
 		cp.Add(stun.AttrData, bytes.Repeat([]byte{0xEE}, n))
